@@ -13,7 +13,7 @@ Definition stuck (s : rstate) (nt : nat) : bool :=
 
 (** D4: Stop / Stopped right after Started() fired *)
 Definition d4_schedule : list label :=
-  [LAdd None true; LRunCall 0; LT 0 CStep; LMain CStep; LMain CStep; LMain (CPick 0 true); LMain CStep;
+  [LAdd None true 0; LRunCall 0; LT 0 CStep; LMain CStep; LMain CStep; LMain (CPick 0 true); LMain CStep;
    LObsStarted 0; LStoppedGet 0; LStopCall 1 0; LT 1 CStep; LT 1 CStep].
 
 Lemma d4_refuted :
@@ -32,7 +32,7 @@ Proof. vm_compute. repeat split. Qed.
     blocks in its select; the handler is started, stopped, ends. *)
 Definition d14_schedule : list label :=
   [LRunCall 0; LT 0 CStep; LMain CStep; LMain CStep; LMain CStep; LMain CStep; LObsRunning;
-   LAdd None true; LWatch CStep;
+   LAdd None true 0; LWatch CStep;
    LRHCall 1 PClient; LT 1 CStep; LT 1 CStep; LT 1 (CPick 0 true); LT 1 CStep; LT 1 CStep; LT 1 CStep;
    LObsStarted 0; LStopCall 2 0; LT 2 CStep; LT 2 CStep; LSubCtx 0;
    LLoop 0; LLoop 0; LLoop 0; LLoop 0; LLoop 0; LHC 0 false; LObsStopped 0].
@@ -76,7 +76,7 @@ Proof. vm_compute. repeat split. Qed.
 
 (** with one handler the same cancellation closes the router *)
 Definition cancel_schedule : list label :=
-  [LAdd None true; LRunCall 0; LT 0 CStep; LMain CStep; LMain CStep; LMain (CPick 0 true); LMain CStep; LMain CStep;
+  [LAdd None true 0; LRunCall 0; LT 0 CStep; LMain CStep; LMain CStep; LMain (CPick 0 true); LMain CStep; LMain CStep;
    LMain CStep; LMain CStep; LCancel; LSubCtx 0; LHC 0 false; LLoop 0; LLoop 0; LLoop 0; LLoop 0; LLoop 0]
   ++ [LWatch CStep; LWatch CStep; LWatch CStep; LWatch CStep; LWatch CStep; LWatch CStep; LWatch CStep; LMain CStep; LMain CStep].
 Lemma cancel_closes_witness :
@@ -87,7 +87,7 @@ Proof. vm_compute. repeat split. Qed.
     Stop(0) ends handler 0, whose goroutine closes publisher 0: handler 1 still receives but its
     publish fails; handler 2 is unaffected. *)
 Definition shared_schedule : list label :=
-  [LAdd (Some 0) true; LAdd (Some 0) true; LAdd (Some 1) true; LRunCall 0; LT 0 CStep; LMain CStep; LMain CStep;
+  [LAdd (Some 0) true 0; LAdd (Some 0) true 0; LAdd (Some 1) true 0; LRunCall 0; LT 0 CStep; LMain CStep; LMain CStep;
    LMain (CPick 0 true); LMain CStep; LMain CStep; LMain (CPick 1 true); LMain CStep; LMain CStep;
    LMain (CPick 2 true); LMain CStep; LMain CStep; LMain CStep; LMain CStep;
    LObsStarted 0; LStopCall 1 0; LT 1 CStep; LT 1 CStep; LSubCtx 0; LLoop 0; LLoop 0;
@@ -103,7 +103,7 @@ Proof. vm_compute. repeat split. Qed.
 (** D16 (C06's defect, seen through this model): a handler that was added but never started is
     counted in handlersWg and nobody will ever call Done for it - Close waits although nothing
     runs, and only the CloseTimeout ends the wait (Close returns the timeout error). *)
-Definition d16_schedule : list label := [LAdd None true; LCloseCall 0; LT 0 CStep; LT 0 CStep; LT 0 CStep].
+Definition d16_schedule : list label := [LAdd None true 0; LCloseCall 0; LT 0 CStep; LT 0 CStep; LT 0 CStep].
 Lemma d16_refuted :
   let s := run (rinit true true true false) d16_schedule in
   thr s 0 = TClose KWait /\ hwg s = 1 /\ mainp s = RNone /\ wat s = WNone /\ h_loop (hs s 0) = LNone
